@@ -81,3 +81,33 @@ pub fn history(data: &[u8]) {
         report("C02", v);
     }
 }
+
+/// Wide cases under coverage guidance. The first byte selects the kind unless the stage that
+/// started the fuzzer pinned it through VERIF_WIDE_KIND (so that a finding belongs to the
+/// property whose check is running).
+pub fn wide(data: &[u8]) {
+    util::install_panic_hook();
+    if data.is_empty() {
+        return;
+    }
+    const KINDS: [(&str, &str); 7] = [("conn", "C03"), ("canon", "C02"), ("quant", "C04"), ("count", "C05"), ("model", "C07"), ("retain", "C20"), ("history", "C13")];
+    let pinned = std::env::var("VERIF_WIDE_KIND").ok();
+    let (kind, prop) = match &pinned {
+        Some(k) => KINDS.iter().copied().find(|(n, _)| n == k).unwrap_or(KINDS[0]),
+        None => KINDS[data[0] as usize % KINDS.len()],
+    };
+    let tape = &data[1..];
+    let mut st = crate::engine::Stats::default();
+    let r = match kind {
+        "conn" => crate::wide::tape_conn(tape, false, false, &mut st),
+        "canon" => crate::wide::tape_conn(tape, false, true, &mut st),
+        "quant" => crate::wide::tape_quant(tape, false, &mut st),
+        "count" => crate::wide::tape_count(tape, false, &mut st),
+        "model" => crate::wide::tape_model(tape, false, &mut st),
+        "retain" => crate::wide::tape_retain(tape, false, &mut st),
+        _ => crate::wide::tape_history(tape, false, &mut st),
+    };
+    if let Err(v) = r {
+        report(prop, v);
+    }
+}
